@@ -6,7 +6,7 @@ from .. import model, query, sig
 
 PROP = "C18"
 LEVEL = "exploration"
-MONITORS = ["schema", "schema_exclude_const", "schema_subset", "diff", "diff_reconstruct"]
+MONITORS = ["schema", "schema_exclude_const", "schema_subset", "schema_stale_selection", "diff", "diff_reconstruct"]
 RULE = (
     "Corpora of 0-8 jobs over heterogeneous, nested, mixed-type state point universes (int vs equal float vs bool "
     "under one key, lists, None, keys present in only some jobs, a key that is scalar in one job and a mapping in "
@@ -201,4 +201,31 @@ def run_case(ctx, case):
         if bad:
             ctx.violation("diff-differs-from-model", "diff_jobs is not 'pairs not shared by all' / does not reconstruct",
                           {"sps": chosen_sps, "problems": bad[:4]})
+    # a selection made earlier and used after some of its jobs are gone: the summary is of the selected jobs that
+    # exist, never of state points remembered from before (an implementation may also refuse the unknown ids)
+    if len(ids) >= 2 and case["seed"] % 3 == 0:
+        gone = rng.sample(ids, rng.randint(1, len(ids) - 1))
+        if rng.random() < 0.5:
+            project.update_cache()
+        for i in gone:
+            project.open_job(id=i).remove()
+        handle = project if rng.random() < 0.5 else signac.Project(project.path)
+        sel = rng.sample(ids, rng.randint(1, len(ids)))
+        left_sps = [by_id[i] for i in sel if i not in gone]
+        for exclude_const in (False, True):
+            ctx.monitor("schema_stale_selection")
+            try:
+                got = norm_schema(handle.detect_schema(exclude_const=exclude_const, subset=list(sel)))
+            except LookupError:
+                ctx.count("stale_selection_refused")
+                continue
+            except Exception as e:  # noqa
+                ctx.violation("detect_schema-raises", f"detect_schema raised {type(e).__name__}: {e}",
+                              {"sps": left_sps, "exclude_const": exclude_const, "stale_ids_in_subset": True})
+                continue
+            exp = model_schema(left_sps, exclude_const)
+            if got != exp or any(set(got[k]) != set(exp[k]) for k in exp):
+                ctx.violation("schema-reports-removed-jobs", "detect_schema(subset) summarises state points of jobs that no longer exist",
+                              {"existing_selected": left_sps, "removed": [by_id[i] for i in gone], "exclude_const": exclude_const,
+                               "got": schema_repr(got), "expected": schema_repr(exp)})
     ctx.sample({"sps": sps[:3], "schema": schema_repr(model_schema(sps, False))})
